@@ -142,6 +142,11 @@ pub fn oversized_reply_configs(prefix: &str, group: &'static str, thorough: bool
         c.alph.defer_pubrel = true;
         c.connects = vec![ConnProf { mps: Some(30), ..ConnProf::basic(false) }, ConnProf::basic(false)];
         c.connacks = vec![AckProf { mps: Some(30), ..AckProf::basic(true) }, AckProf { mps: Some(30), ..AckProf::basic(false) }, AckProf::basic(true)];
+        if group == "c12" {
+            // own Receive Maximum 1 in both directions: a reply the library refused has not freed the slot
+            c.connects = vec![ConnProf { mps: Some(30), rm: Some(1), ..ConnProf::basic(false) }];
+            c.connacks = vec![AckProf { mps: Some(30), rm: Some(1), ..AckProf::basic(true) }, AckProf { mps: Some(30), rm: Some(1), ..AckProf::basic(false) }];
+        }
         c.groups = vec![group];
         v.push(c);
     }
@@ -318,6 +323,7 @@ pub fn c12_configs(thorough: bool) -> Vec<EpCfg> {
             }
         }
     }
+    v.extend(oversized_reply_configs("c12", "c12", thorough));
     v
 }
 pub fn c12(rep: &mut Report) {
@@ -653,6 +659,22 @@ pub fn c14_configs(thorough: bool) -> Vec<EpCfg> {
             }
         }
     }
+    // a limit the sender learns late: a client's publishes handed over between its CONNECT (clean start that keeps
+    // the new session, or a resumed session) and the CONNACK are stored unchecked - the CONNACK then announces a
+    // Maximum Packet Size some of them exceed: dropped (identifier released), never transmitted
+    for role in [RoleK::Client, RoleK::Any] {
+        if !thorough && role == RoleK::Any {
+            continue;
+        }
+        let mut c = EpCfg::new(&cfg_name("c14", role, Some(Ver::V5), "limit learned at CONNACK, early publishes"), role, Some(Ver::V5));
+        c.auto_pub = true;
+        c.window = 2;
+        c.alph = Alph { pub_q: vec![1, 2], topics: 3, als: vec![Al::No], pub_any_status: true, peer_acks: vec![AckKind::Puback, AckKind::Pubrec, AckKind::Pubcomp], peer_ack_ids: vec![1, 2], spontaneous_close: true, ..Alph::default() };
+        c.connects = vec![ConnProf { sei: Some(100), ..ConnProf::basic(true) }, ConnProf::basic(false)];
+        c.connacks = vec![AckProf { mps: Some(12), ..AckProf::basic(false) }, AckProf { mps: Some(12), ..AckProf::basic(true) }, AckProf::basic(true)];
+        c.groups = vec!["c14"];
+        v.push(c);
+    }
     // inbound: own limit around inbound frame sizes
     for role in [RoleK::Client, RoleK::Server] {
         for own in [3u32, 4, 6, 7, 8, 9] {
@@ -774,7 +796,8 @@ pub fn c15_configs(thorough: bool) -> Vec<EpCfg> {
                     // second connection with a *different* keep alive; Server Keep Alive absent / 0 / 2
                     c.connects = vec![ConnProf { ka, ..ConnProf::basic(true) }, ConnProf { ka, ..ConnProf::basic(false) }, ConnProf { ka: if ka == 0 { 2 } else { 0 }, ..ConnProf::basic(false) }];
                     c.connacks = if ver == Ver::V5 {
-                        vec![AckProf::basic(false), AckProf::basic(true), AckProf { ska: Some(0), ..AckProf::basic(true) }, AckProf { ska: Some(2), ..AckProf::basic(true) }, AckProf { ok: false, ..AckProf::basic(false) }]
+                        // (Server Keep Alive 66 / 65535: the first values whose milliseconds do not fit 16 bits, and the largest)
+                        vec![AckProf::basic(false), AckProf::basic(true), AckProf { ska: Some(0), ..AckProf::basic(true) }, AckProf { ska: Some(2), ..AckProf::basic(true) }, AckProf { ska: Some(if ka == 65535 { 65535 } else { 66 }), ..AckProf::basic(false) }, AckProf { ok: false, ..AckProf::basic(false) }]
                     } else {
                         vec![AckProf::basic(false), AckProf::basic(true), AckProf { ok: false, ..AckProf::basic(false) }]
                     };
